@@ -129,14 +129,56 @@ class ShardResult:
         }
 
 
+def _run_in_optimized_child(args):
+    """executes one shard in a child interpreter started with -O (PYTHONOPTIMIZE=1 in its environment, so that its own children
+    inherit it) and returns the shard's result dictionary"""
+    import subprocess
+    import tempfile
+    prop_name, spec, seed, tier = args
+    d = tempfile.mkdtemp(prefix="ssepy-optshard-")
+    try:
+        with open(os.path.join(d, "in.json"), "w") as f:
+            json.dump({"prop": prop_name, "spec": spec, "seed": seed, "tier": tier}, f, default=_json_default)
+        here = os.path.dirname(os.path.dirname(os.path.abspath(__file__)))
+        code = "import sys; sys.path.insert(0, %r); from vlib import runner; runner._optimized_child_main(%r)" % (here, d)
+        p = subprocess.run([sys.executable, "-O", "-c", code], env=dict(os.environ, PYTHONOPTIMIZE="1", PYTHONDONTWRITEBYTECODE="1"),
+                           capture_output=True, text=True)
+        out = os.path.join(d, "out.json")
+        if not os.path.exists(out):
+            raise HarnessError("the -O child of shard %r produced no result (exit %s): %s" % (spec, p.returncode, p.stderr[-800:]))
+        with open(out) as f:
+            return json.load(f)
+    finally:
+        import shutil
+        shutil.rmtree(d, ignore_errors=True)
+
+
+def _optimized_child_main(d):
+    with open(os.path.join(d, "in.json")) as f:
+        a = json.load(f)
+    res = _worker((a["prop"], a["spec"], a["seed"], a["tier"]))
+    tmp = os.path.join(d, "out.json.tmp")
+    with open(tmp, "w") as f:
+        json.dump(res, f, default=_json_default)
+    os.replace(tmp, os.path.join(d, "out.json"))
+
+
 def _worker(args):
     prop_name, spec, seed, tier = args
     setup_environment()
     t0 = time.time()
     try:
         import importlib
+        if isinstance(spec, dict) and spec.get("_py_optimize") and not sys.flags.optimize:
+            return _run_in_optimized_child(args)
         mod = importlib.import_module("props." + prop_name)
         res = mod.run_shard(spec, seed, tier)
+        if isinstance(spec, dict) and spec.get("_py_optimize"):
+            res.classes["interpreter_started_with_-O"] = res.classes.get("interpreter_started_with_-O", 0) + res.evaluations
+            for v in res.violations:
+                if isinstance(v.get("case"), dict):
+                    v["case"]["_py_optimize"] = True
+                v["msg"] = str(v.get("msg")) + " [interpreter started with -O]"
         d = res.to_dict()
     except HarnessError as e:
         d = ShardResult().to_dict()
@@ -190,6 +232,9 @@ def run_property(prop_name, tier, replay_path=None, jobs=None):
         with open(replay_path) as f:
             doc = json.load(f)
         case = doc.get("case", doc)
+        if isinstance(case, dict) and case.get("_py_optimize") and not sys.flags.optimize:
+            # the case was found in an interpreter started with -O: replay it in one
+            os.execve(sys.executable, [sys.executable] + sys.argv, dict(os.environ, PYTHONOPTIMIZE="1"))
         msg = mod.replay(case)
         if msg:
             print("replay: property %s VIOLATED on %s: %s" % (prop_id, replay_path, msg))
@@ -241,7 +286,18 @@ def run_property(prop_name, tier, replay_path=None, jobs=None):
     specs = mod.shards(tier)
     jobs = jobs or int(os.environ.get("VERIF_JOBS", "0")) or min(16, os.cpu_count() or 1)
     work = [(prop_name, spec, derive_seed(seed, prop_id, i), tier) for i, spec in enumerate(specs)]
+    # The same search once more in interpreters started with -O (PYTHONOPTIMIZE=1: `assert` statements and `if __debug__` blocks
+    # are compiled away; the workers' own children -- servers, clients, fresh interpreters -- inherit it): how the process was
+    # started is not an input of any property.  By default the first two Hypothesis shards of a property are repeated that way
+    # (with other seeds); a module can name its own with OPTIMIZED_SHARDS(tier).
+    if hasattr(mod, "OPTIMIZED_SHARDS"):
+        opt_specs = list(mod.OPTIMIZED_SHARDS(tier))
+    else:
+        hyp_like = [s for s in specs if isinstance(s, dict) and s.get("kind") == "hyp"] or [s for s in specs if isinstance(s, dict)]
+        opt_specs = hyp_like[:2]
+    opt_work = [(prop_name, dict(spec, _py_optimize=True), derive_seed(seed, prop_id, 1000 + i), tier) for i, spec in enumerate(opt_specs)]
     results = []
+    work = work + opt_work      # an optimized shard is executed by its pool worker in a child interpreter started with -O
     if jobs == 1 or len(work) == 1:
         for w in work:
             results.append(_worker(w))
